@@ -370,7 +370,11 @@ int cmd_worker(Args const& a)
 	static int64_t s_run = -1;
 	static std::string s_flav;
 	s_flav = a.get("flavour");
+	static FILE* s_out = nullptr;
+	s_out = out;
 	g_note_plan = [](Plan const& pl) {
+		// every sub-execution of an enumerating engine is a run of its own to the hang detector
+		if (s_out) { std::fprintf(s_out, "B %lld\n", (long long)s_run); std::fflush(s_out); }
 		if (s_pfd < 0) return;
 		Plan c = pl;
 		c.run = s_run;
